@@ -47,7 +47,7 @@ namespace sim {
 void register_c02() {
     Property p;
     p.id = "C02"; p.level = "exploration";
-    p.rule = "one evaluation = one call history executed on one column chunk (seeded sequence of read_batch(k)/skip(k)/has_next/remaining/re-create with k around page boundaries and the chunk end, level buffers passed or NULL), or one member read(k);read(rest) of the exhaustive two-call sweep of a small chunk, or one batch-reader pass (seeded batch_size and projection by index/name) over a valid file (peer-written incl. nested/dictionary/multi-page, or carquet-written); every result is checked against the reference cursor model / batch model; non-trivial = file has rows; distinct = hash of (source, codec, leaf types/levels, pages per chunk)";
+    p.rule = "one evaluation = one call history executed on one column chunk (seeded sequence of read_batch(k)/skip(k)/has_next/remaining/re-create with k around page boundaries and the chunk end, level buffers passed or NULL; on BOOLEAN columns now and then max_values of 2^31..2^32+3 with an honestly sized lazily committed buffer), or one member read(k);read(rest) of the exhaustive two-call sweep of a small chunk, or one batch-reader pass (seeded batch_size and projection by index/name; every batch is kept until the next one has been fetched and then looked at again) over a valid file (peer-written incl. nested/dictionary/multi-page, or carquet-written); every result is checked against the reference cursor model / batch model; non-trivial = file has rows; distinct = hash of (source, codec, leaf types/levels, pages per chunk)";
     p.quick_runs = 12000; p.thorough_runs = 600000;
     p.run = run_c02;
     p.assumptions = {"read_batch may return fewer rows than asked ('up to') but at least one while rows remain; skip(n) returns exactly min(n, remaining)",
